@@ -322,11 +322,46 @@ func c06JHdr(seg string) (string, bool) {
 	return alg, ok
 }
 
+// c06Num: a time claim as written in the claims JSON. Num=false: absent or not
+// a JSON number (string, null, bool, ...). Otherwise the literal is M * 10^E.
+type c06Num struct {
+	Num bool   `json:"num"`
+	M   string `json:"m"`
+	E   int    `json:"e"`
+	Lit string `json:"lit,omitempty"`
+}
+
 type c06Claims struct {
 	OK  bool   `json:"ok"`
-	Exp *int64 `json:"exp"`
-	Iat *int64 `json:"iat"`
-	Nbf *int64 `json:"nbf"`
+	Exp c06Num `json:"exp"`
+	Iat c06Num `json:"iat"`
+	Nbf c06Num `json:"nbf"`
+}
+
+var c06NumRe = regexp.MustCompile(`^(-?)([0-9]+)(?:\.([0-9]+))?(?:[eE]([+-]?[0-9]+))?$`)
+
+func c06ParseNum(lit string) c06Num {
+	m := c06NumRe.FindStringSubmatch(lit)
+	if m == nil {
+		panic("verif: harness defect: JSON number literal not understood: " + lit)
+	}
+	e := 0
+	if m[4] != "" {
+		e, _ = strconv.Atoi(m[4])
+	}
+	return c06Num{Num: true, M: m[1] + m[2] + m[3], E: e - len(m[3]), Lit: lit}
+}
+
+// c06Whole: the whole second the reference compares (the written number, truncated toward zero)
+func (n c06Num) c06Whole() (int64, bool) {
+	if !n.Num {
+		return 0, false
+	}
+	f, err := strconv.ParseFloat(n.Lit, 64)
+	if err != nil || f >= 9.2e18 || f <= -9.2e18 {
+		panic("verif: harness defect: time claim outside the int64 range: " + n.Lit)
+	}
+	return int64(f), true
 }
 
 func c06JClaims(seg string) (c c06Claims) {
@@ -334,17 +369,23 @@ func c06JClaims(seg string) (c c06Claims) {
 	if err != nil {
 		return
 	}
+	// the verdict "malformed" is the decoder's with float64 numbers (as jwt.Parse decodes)
+	var probe map[string]interface{}
+	if json.NewDecoder(bytes.NewBuffer(b)).Decode(&probe) != nil {
+		return
+	}
 	var m map[string]interface{}
-	if json.NewDecoder(bytes.NewBuffer(b)).Decode(&m) != nil {
+	dec := json.NewDecoder(bytes.NewBuffer(b))
+	dec.UseNumber()
+	if dec.Decode(&m) != nil {
 		return
 	}
 	c.OK = true
-	get := func(k string) *int64 {
-		if f, ok := m[k].(float64); ok {
-			x := int64(f)
-			return &x
+	get := func(k string) c06Num {
+		if n, ok := m[k].(json.Number); ok {
+			return c06ParseNum(string(n))
 		}
-		return nil
+		return c06Num{}
 	}
 	c.Exp, c.Iat, c.Nbf = get("exp"), get("iat"), get("nbf")
 	return
@@ -374,13 +415,14 @@ func c06RefJWT(cfg *c06JWTCfg, v *c06View, jnow int64) (bool, string) {
 	if !cl.OK {
 		return false, "jwt: claims"
 	}
-	if cl.Exp != nil && *cl.Exp != 0 && jnow > *cl.Exp {
+	// a claim that is absent, not a number, or whose whole second is 0 does not restrict
+	if x, ok := cl.Exp.c06Whole(); ok && x != 0 && jnow > x {
 		return false, "jwt: expired"
 	}
-	if cl.Iat != nil && *cl.Iat != 0 && jnow < *cl.Iat {
+	if x, ok := cl.Iat.c06Whole(); ok && x != 0 && jnow < x {
 		return false, "jwt: iat"
 	}
-	if cl.Nbf != nil && *cl.Nbf != 0 && jnow < *cl.Nbf {
+	if x, ok := cl.Nbf.c06Whole(); ok && x != 0 && jnow < x {
 		return false, "jwt: nbf"
 	}
 	if parts[2] != c06JMac(alg, cfg.Secret, parts[0]+"."+parts[1]) {
